@@ -555,12 +555,13 @@ func main() {
 			primitiveCases(em)
 			tupDispatchPrefixes(em, seed)
 			proxyResultPrefixes(em, seed)
+			udpDatagramPrefixes(em, seed)
 		}
 		wal.Done()
 		return
 	}
 	run := vlib.Start("C06")
-	run.SetRule("for every generated struct type x values (reference-encoded): (P) every proper prefix (all cuts for encodings <= 600 bytes, field boundaries +-2 and a stride beyond), (L) every embedded String1/String4/SimpleList/List/Map length inflated to remaining+1, 2x+1, 65536 (String4 also 2^31-1 and 2^32-1), (T) every member, nested member, first list element and first map value replaced by a well-formed field of each inadmissible wire type; plus prefixes of TUP attribute sets, of single primitive fields, and of the attribute buffer of TUP requests to the generated dispatcher (the implementation must not run). Oracle: reference strict parser's complete fields. A case is one damaged input; distinct inputs are counted.")
+	run.SetRule("for every generated struct type x values (reference-encoded): (P) every proper prefix (all cuts for encodings <= 600 bytes, field boundaries +-2 and a stride beyond), (L) every embedded String1/String4/SimpleList/List/Map length inflated to remaining+1, 2x+1, 65536 (String4 also 2^31-1 and 2^32-1), (T) every member, nested member, first list element and first map value replaced by a well-formed field of each inadmissible wire type; plus prefixes of TUP attribute sets, of single primitive fields, and of the attribute buffer of TUP requests to the generated dispatcher (the implementation must not run); a live UDP server receiving cut datagrams between complete ones of other lengths (every packet handed to the protocol must equal a sent datagram). Oracle: reference strict parser's complete fields. A case is one damaged input; distinct inputs are counted.")
 	run.Assume("panics and over-allocations provoked by damaged input are judged under C05; list/map lengths are not inflated to 2^31-1 here for that reason")
 	if len(tis) == 0 {
 		run.Finish()
